@@ -161,12 +161,18 @@ func (c *Ctx) termLabels(fn *ssa.Function) *termSum {
 	}
 	// content labels of local containers (allocs, fresh maps / slices)
 	content := map[ssa.Value]labelSet{}
+	// "not derived from a parameter" is only concluded once the derived labels have converged (final pass); otherwise
+	// an operand that simply has not been visited yet would be taken for foreign data and, labels being monotone, stay so
+	final := false
 	valOrOther := func(v ssa.Value) labelSet {
 		if cst, ok := v.(*ssa.Const); ok && cst.Value == nil {
 			return labelSet{}
 		}
 		if s := get(v); len(s) > 0 {
 			return s
+		}
+		if !final {
+			return nil
 		}
 		return other
 	}
@@ -193,7 +199,7 @@ func (c *Ctx) termLabels(fn *ssa.Function) *termSum {
 		}
 		return false
 	}
-	for iter := 0; iter < 20; iter++ {
+	for iter := 0; iter < 40; iter++ {
 		changed := false
 		upd := func(v ssa.Value, s labelSet) {
 			if len(s) == 0 {
@@ -329,7 +335,11 @@ func (c *Ctx) termLabels(fn *ssa.Function) *termSum {
 			upd(cont, s)
 		}
 		// results
+		rei := core.ErrorResultIndex(fn.Signature)
 		for _, ret := range core.ReturnsOf(fn) {
+			if rei >= 0 && c.M.ProvablyNonNilError(core.RetVal(ret, rei), ret.Block()) {
+				continue // the other results of an error return are never used as data
+			}
 			for i := range ret.Results {
 				v := core.RetVal(ret, i)
 				if v == nil {
@@ -344,6 +354,10 @@ func (c *Ctx) termLabels(fn *ssa.Function) *termSum {
 			}
 		}
 		if !changed {
+			if !final {
+				final = true
+				continue
+			}
 			break
 		}
 	}
